@@ -727,7 +727,38 @@ class AccessMixin:
             return Cell("list", conc=out, fresh=True)
         if isinstance(it, Opaque) or getattr(it, "unknown", False):
             return self.unknown_cell("set" if kind == "set" else "list")
-        return self.symbolic_comprehension(n, g, it, kind)
+        # a pure map `[elt(x) for x in L]` (no filter) evaluated twice over the same list in the same heap state is the same value:
+        # code and contract may both write it, and list-valued functions (join ...) need to see one term
+        key = None
+        if kind == "list" and not g.ifs and isinstance(g.target, ast.Name) and isinstance(it, (Cell, SV)):
+            src = it.sym if isinstance(it, Cell) else it
+            if src is not None and getattr(src, "ty", None) is not None and src.ty.name == "List":
+                class _Ren(ast.NodeTransformer):
+                    def visit_Name(self_, node):
+                        return ast.copy_location(ast.Name(id="_x" if node.id == g.target.id else node.id, ctx=node.ctx), node)
+                import copy as _copy
+                norm = ast.dump(_Ren().visit(_copy.deepcopy(n.elt)))
+                free = sorted({m.id for m in ast.walk(n.elt) if isinstance(m, ast.Name) and m.id != g.target.id})
+                if not free:      # depends on the element (and the heap) only
+                    attrs = {m.attr for m in ast.walk(n.elt) if isinstance(m, ast.Attribute)}
+                    heap_fp = []
+                    for cname, model in C.CLASSES.items():
+                        for fld in model["fields"]:
+                            if fld in attrs:
+                                hk = f"{cname}.{fld}"
+                                cur = ctx.heap.get(hk)
+                                init = ctx.heap0.get(hk, (None,))[0]
+                                heap_fp.append((hk, "H0" if cur is None or (init is not None and cur.eq(init)) else cur.sexpr()))
+                    heap_fp = tuple(sorted(heap_fp))     # the state of exactly the fields the element expression reads
+                    key = (norm, src.t.get_id(), heap_fp)
+                    cache = ctx.__dict__.setdefault("_map_cache", {})
+                    if key in cache:
+                        hit = cache[key]
+                        return Cell("list", sym=hit, fresh=True, elem=None)
+        res = self.symbolic_comprehension(n, g, it, kind)
+        if key is not None and isinstance(res, Cell) and res.sym is not None:
+            ctx.__dict__.setdefault("_map_cache", {})[key] = res.sym
+        return res
 
     def comprehension_nested(self, n, kind):
         raise Unsupported("nested comprehension over symbolic iterables")
